@@ -58,6 +58,16 @@ def r2_shared_gate(ctx, rule="C13.R2"):
         key = "%s:%s" % (rule, fn.name)
         if yields_variable:
             gated = "require_shared" in names
+            if not gated:
+                # the gate written in place: the lookup's result is filtered on the entry's own `shared` field
+                reads_shared = any(isinstance(e, dict) and e.get("n") == "shared"
+                                   for g_ in [fn] + prog.closures_of(fn) for blk_ in g_.body.blocks for st_ in blk_["s"]
+                                   if st_["k"] == "assign" for pl_ in ([st_["r"].get("p")] if isinstance(st_["r"].get("p"), list) else []) +
+                                   [mir.op_place(st_["r"][kk]) for kk in ("o", "a", "b") if isinstance(st_["r"].get(kk), dict)]
+                                   if pl_ for e in pl_[1])
+                filters = any(mir.callee_path(t_).split("::")[-1] in ("filter", "take_if", "and_then", "is_some_and")
+                              for _f, _b, t_ in calls)
+                gated = reads_shared and filters
             if not gated and "collect_var_info" in names:
                 # the flag variant: the global lookup passes only_shared = true
                 for f, b, t in calls:
@@ -76,6 +86,13 @@ def r2_shared_gate(ctx, rule="C13.R2"):
                        "global constants are visible without SHARED",
                        "%s applies the SHARED gate to constants" % fn.name)
     rs = [f for f in _names_methods(prog) if f.name == "require_shared"]
+    if not rs:
+        # the gate has no function of its own (written in place at every lookup): its two cells are not decided here
+        ctx.unknown(rule, "%s:require_shared:shared=1" % rule, "-", "the SHARED gate is written in place: not evaluated as a function")
+        ctx.unknown(rule, "%s:require_shared:shared=0" % rule, "-", "the SHARED gate is written in place: not evaluated as a function")
+        ctx.analysed_units(rule, two_level_lookups=n)
+        ctx.require(rule, 3, max_unknown=2)
+        return
     if len(rs) != 1:
         raise CheckError("anchor Names::require_shared")
     eng = tf.Engine(prog)
